@@ -876,7 +876,10 @@ class C11(Check):
         "'equal behaviour' after JSON is decided against the locally rebuilt value only when that value writes "
         "the very document that was read (otherwise an earlier repr/pickle hop, not this JSON hop, is where "
         "the values diverged in something == does not look at); matrices are compared entry for entry, exactly, "
-        "ignoring dtype",
+        "ignoring dtype -- except when the two values store their arrays with different dtypes (a complex64 "
+        "MatrixGate read back as complex128 from a nested-list document, which the payload oracle accepts): what "
+        "Cirq computes from the narrower matrix (an inverse for negative repetitions, a product) then differs in "
+        "the last digits of the narrower type, and the comparison allows 64 ulp of that type times the dimension",
         "pickling / copying a class that cannot be pickled at all (exception raised outside the tree under test, "
         "also for a freshly built value) is recorded as unsupported, not as a violation; an exception raised by "
         "Cirq's own __getstate__/__reduce__ hooks, or one that appears only after the value's caches were "
